@@ -67,6 +67,7 @@ func c11qOpen(dir string) (*c11qEnv, error) {
 	peers.AddSymbol("name", ast.NodeTypeString)
 	things.AddIdSymbol("id", ast.NodeTypeString)
 	things.AddSymbol("name", ast.NodeTypeString)
+	things.AddSymbol("descr", ast.NodeTypeString) // second string field, stream M
 	things.AddSymbol("n", ast.NodeTypeInt64)
 	things.AddSetSymbol("tags", ast.NodeTypeString)
 	things.AddFkSymbol("peer", peers)
